@@ -1,1 +1,525 @@
+// Package c11: query results do not depend on parallelism or memory mode, and queries end.
+//
+// Part A (in-process, also under the race detector): a seeded multi-day RefDB (up to ~200 day
+// directories, i.e. several 32-directory workloads) is written by the production DBWriter; generated
+// queries are executed by the real engine under every combination of worker count {1,2,3,4,8,16}
+// (engine.VerifSetNumProcessingUnits) × low-memory {off,on}, each repeated under seeded GOMAXPROCS
+// values {1,4,16} and with scheduler noise goroutines; every run must equal the reference run
+// (1 worker, low-memory off) in rows, totals and hit count; the reference run must equal the
+// independent query oracle.
+//
+// Part B (termination): databases with N tiny one-block days (N up to several thousand) are queried
+// by a separate, un-hooked process pinned to one CPU (`taskset -c 0 <self> -role c11-query ...`, so
+// runtime.NumCPU()==1 and the engine uses a single worker). The child must finish within a generous
+// watchdog and its result must equal the oracle. A watchdog expiry alone is inconclusive; it is a
+// violation only with the structural witness: three consecutive goroutine dumps (2× SIGUSR1, then
+// SIGQUIT) all show a goroutine blocked in `chan send` inside (*DBWorkManager).CreateWorkerJobs while
+// no worker goroutine (grabAndProcessWorkload) exists — workers are only started after
+// CreateWorkerJobs returns, so that state can never change.
 package c11
+
+import (
+	"bytes"
+	"encoding/json"
+	"fmt"
+	"os"
+	"os/exec"
+	"os/signal"
+	"regexp"
+	"runtime"
+	"strconv"
+	"strings"
+	"sync"
+	"sync/atomic"
+	"syscall"
+	"time"
+
+	"github.com/els0r/goProbe/v4/pkg/goDB/encoder/encoders"
+	"github.com/els0r/goProbe/v4/pkg/goDB/engine"
+	"verifharness/checks/c08"
+	"verifharness/eng"
+	"verifharness/fw"
+	"verifharness/gen"
+	"verifharness/rdr"
+	"verifharness/ref"
+)
+
+func nEquiv(tier, variant string) int {
+	switch {
+	case tier == "thorough" && variant == "race":
+		return 24
+	case tier == "thorough":
+		return 120
+	case variant == "race":
+		return 4
+	}
+	return 16
+}
+
+// dayCounts are the sizes of the termination databases (default variant only).
+func dayCounts(tier, variant string) []int {
+	if variant != "default" {
+		return nil
+	}
+	if tier == "thorough" {
+		return []int{100, 2048, 2049, 2100, 5000}
+	}
+	return []int{300, 2049}
+}
+
+var workerCounts = []int{1, 2, 3, 4, 8, 16}
+
+func init() {
+	fw.Register(&fw.Check{
+		ID:    "C11",
+		Level: "exploration",
+		Rule: "part A: case = one seeded RefDB (1-2 ifaces, up to 200 day directories) + generated queries (attribute sets, time, ranges, single-family conjunctive conditions, direction filters), each run under workers {1,2,3,4,8,16} x low-mem {off,on} x 2 repetitions with seeded GOMAXPROCS {1,4,16} and scheduler noise, compared with the 1-worker reference run and the query oracle; " +
+			"non-trivial iff the query covers >= 33 day directories of one interface (>= 2 workloads), returns rows and runs with >= 2 workers; distinct by (db, query, config). " +
+			"part B: one case per database size N (one-block days), queried by an un-hooked child process pinned to one CPU with a watchdog and goroutine-dump witness.",
+		Assumptions: []string{
+			"conditions are restricted to conjunctions of single-family `=` address leaves and port/protocol trees (other shapes hit defects owned by C08/C09 identically in every configuration)",
+			"a watchdog expiry without the producer-blocked/no-consumer witness is reported as inconclusive, never as a violation",
+			"block timestamps >= 1000080000 (10-digit day directories)",
+		},
+		NumCases: func(tier, variant string) int { return nEquiv(tier, variant) + len(dayCounts(tier, variant)) },
+		Variants: func(tier string) []string { return []string{"default", "race"} },
+		Run:      run,
+		Require: []string{"config_runs", "config_runs_nontrivial", "runs_lowmem", "runs_workers_16", "runs_gomaxprocs_1", "queries_multi_workload",
+			"termination_children", "termination_days_over_channel_capacity"},
+		CaseTimeout: 400 * time.Second,
+	})
+	fw.RegisterRole("c11-query", roleQuery)
+}
+
+func run(c *fw.Case) {
+	ne := nEquiv(c.Tier, c.Variant)
+	if c.Idx < ne {
+		runEquiv(c)
+		return
+	}
+	runTermination(c, dayCounts(c.Tier, c.Variant)[c.Idx-ne])
+}
+
+// ---------------------------------------------------------------------------------------------
+// Part A
+
+type config struct {
+	Workers    int
+	LowMem     bool
+	GoMaxProcs int
+	Noise      int
+}
+
+func (cf config) String() string {
+	return fmt.Sprintf("workers=%d lowmem=%v GOMAXPROCS=%d noise=%d", cf.Workers, cf.LowMem, cf.GoMaxProcs, cf.Noise)
+}
+
+// withNoise runs f while n goroutines keep the scheduler busy (yielding constantly).
+func withNoise(n int, f func()) {
+	var stop atomic.Bool
+	var wg sync.WaitGroup
+	for i := 0; i < n; i++ {
+		wg.Add(1)
+		go func(i int) {
+			defer wg.Done()
+			x := uint64(i)
+			for !stop.Load() {
+				for k := 0; k < 200; k++ {
+					x = x*6364136223846793005 + 1442695040888963407
+				}
+				runtime.Gosched()
+			}
+			_ = x
+		}(i)
+	}
+	f()
+	stop.Store(true)
+	wg.Wait()
+}
+
+func runConfig(c *fw.Case, dbPath string, q c08.Query, cf config) (rdr.Canon, bool) {
+	prevW := engine.VerifSetNumProcessingUnits(cf.Workers)
+	prevP := runtime.GOMAXPROCS(cf.GoMaxProcs)
+	defer func() {
+		engine.VerifSetNumProcessingUnits(prevW)
+		runtime.GOMAXPROCS(prevP)
+	}()
+	a := eng.Args(q.Type, q.Ifaces, q.Cond, q.Spec.First, q.Spec.Last)
+	a.LowMem = cf.LowMem
+	c.Note("%s | %s", q.Describe(), cf)
+	var (
+		canon rdr.Canon
+		ok    bool
+	)
+	withNoise(cf.Noise, func() {
+		res, err, pmsg := eng.Run(dbPath, a)
+		switch {
+		case pmsg != "":
+			c.Violatef("panic|"+c08.CondClass(q), "%s | %s: panic: %s", q.Describe(), cf, firstLines(pmsg, 14))
+		case err != nil:
+			c.Violatef("query_error|"+c08.CondClass(q), "%s | %s: error: %v", q.Describe(), cf, err)
+		default:
+			canon, ok = rdr.Canonical(res, q.Spec), true
+		}
+	})
+	return canon, ok
+}
+
+func runEquiv(c *fw.Case) {
+	r := c.Rng
+	maxDays := []int{3, 40, 70, 130, 200}[r.Intn(5)]
+	if c.Idx < 2 {
+		maxDays = 200
+	}
+	db := gen.RandRefDB(r, gen.DBOpts{MaxIfaces: 2, MaxDays: maxDays, MaxBlocksDay: 2, MaxFlows: 6,
+		Flow: gen.FlowOpts{V6Prob: 0.4, ZeroProb: 0.02, BigCounters: true}, OffGrid: r.Intn(2) == 0,
+		BaseDay: gen.DayStart(gen.MinTS) + 86400*int64(1+r.Intn(9000))})
+	rdr.Sanitize(db)
+	dbPath := c.Tmp + "/db"
+	enc := []encoders.Type{encoders.EncoderTypeLZ4, encoders.EncoderTypeZSTD, encoders.EncoderTypeNull}[r.Intn(3)]
+	if err := db.Write(dbPath, enc, 0); err != nil {
+		c.Violatef("write_error", "writing generated DB failed: %v", err)
+		return
+	}
+	nq := 8
+	if c.Tier == "thorough" {
+		nq = 12
+	}
+	if c.Variant == "race" {
+		nq = 4
+	}
+	for qi := 0; qi < nq; qi++ {
+		q := rdr.SafeQuery(r, db, rdr.QueryOpts{FullRange: qi%2 == 0})
+		// number of day directories per selected interface inside the range
+		maxDirs := 0
+		for _, name := range q.Spec.Ifaces {
+			days := map[int64]bool{}
+			for _, b := range db.Iface(name).Blocks {
+				if b.TS >= q.Spec.First && b.TS <= q.Spec.Last {
+					days[gen.DayStart(b.TS)] = true
+				}
+			}
+			if len(days) > maxDirs {
+				maxDirs = len(days)
+			}
+		}
+		multi := maxDirs > 32
+		c.Count("queries", 1)
+		if multi {
+			c.Count("queries_multi_workload", 1)
+		}
+		refCf := config{Workers: 1, LowMem: false, GoMaxProcs: 4}
+		refCanon, ok := runConfig(c, dbPath, q, refCf)
+		if !ok {
+			continue
+		}
+		want := ref.Query(db, q.Spec)
+		oracle := rdr.Canon{Rows: rdr.RowStrings(want), Totals: want.Totals(), Hits: len(want)}
+		if refCanon.Dup != "" {
+			c.Violatef("group_split|"+c08.CondClass(q), "%s | %s: two result rows share the group key %s", q.Describe(), refCf, refCanon.Dup)
+		}
+		if d := rdr.DiffCanon(oracle, refCanon); d != "" {
+			c.Violatef("reference_run_vs_oracle|"+c08.CondClass(q), "db{%s} %s | %s: oracle vs result: %s", db.Summary(), q.Describe(), refCf, d)
+			continue
+		}
+		if qi == 0 {
+			c.Sample(map[string]any{"db": db.Summary(), "encoder": enc.String(), "query": q.Describe(), "rows": len(refCanon.Rows), "day_dirs_in_range": maxDirs,
+				"configs": "workers{1,2,3,4,8,16} x lowmem{off,on} x 2 reps (seeded GOMAXPROCS{1,4,16}, noise goroutines)"})
+		}
+		for _, w := range workerCounts {
+			for _, lm := range []bool{false, true} {
+				for rep := 0; rep < 2; rep++ {
+					cf := config{Workers: w, LowMem: lm, GoMaxProcs: []int{1, 4, 16}[r.Intn(3)]}
+					if r.Intn(2) == 0 {
+						cf.Noise = 1 + r.Intn(6)
+					}
+					got, ok := runConfig(c, dbPath, q, cf)
+					c.Count("config_runs", 1)
+					if lm {
+						c.Count("runs_lowmem", 1)
+					}
+					c.Count(fmt.Sprintf("runs_workers_%d", w), 1)
+					c.Count(fmt.Sprintf("runs_gomaxprocs_%d", cf.GoMaxProcs), 1)
+					if multi && len(refCanon.Rows) > 0 && w >= 2 {
+						c.Count("config_runs_nontrivial", 1)
+						c.Nontrivial(db.Summary() + q.Describe() + cf.String())
+					}
+					if !ok {
+						continue
+					}
+					if got.Dup != "" {
+						c.Violatef("group_split|"+c08.CondClass(q), "%s | %s: two result rows share the group key %s", q.Describe(), cf, got.Dup)
+					}
+					if d := rdr.DiffCanon(refCanon, got); d != "" {
+						feat := "workers"
+						if lm {
+							feat = "lowmem"
+						}
+						c.Violatef("differs_from_reference_run|"+feat, "db{%s} %s: [%s] vs [%s]: %s", db.Summary(), q.Describe(), refCf, cf, d)
+					}
+				}
+			}
+		}
+	}
+}
+
+// ---------------------------------------------------------------------------------------------
+// Part B
+
+type childOut struct {
+	NumCPU int      `json:"num_cpu"`
+	Rows   []string `json:"rows"`
+	Totals ref.Ctr  `json:"totals"`
+	Hits   int      `json:"hits"`
+	Err    string   `json:"err"`
+	Panic  string   `json:"panic"`
+}
+
+func termSpec(first, last int64) ref.QuerySpec {
+	return ref.QuerySpec{Attrs: []string{"sip", "dip"}, Ifaces: []string{"eth0"}, First: first, Last: last}
+}
+
+// roleQuery is the child: `-role c11-query <db> <first> <last>`; runs one query un-hooked.
+func roleQuery(args []string) int {
+	if len(args) != 3 {
+		fmt.Fprintln(os.Stderr, "usage: -role c11-query db first last")
+		return 3
+	}
+	first, _ := strconv.ParseInt(args[1], 10, 64)
+	last, _ := strconv.ParseInt(args[2], 10, 64)
+	// non-fatal goroutine dumps on SIGUSR1
+	sig := make(chan os.Signal, 4)
+	signal.Notify(sig, syscall.SIGUSR1)
+	go func() {
+		n := 0
+		for range sig {
+			n++
+			buf := make([]byte, 8<<20)
+			buf = buf[:runtime.Stack(buf, true)]
+			fmt.Fprintf(os.Stderr, "\n=== VERIF GOROUTINE DUMP %d ===\n%s\n=== END DUMP %d ===\n", n, buf, n)
+		}
+	}()
+	out := childOut{NumCPU: runtime.NumCPU()}
+	spec := termSpec(first, last)
+	a := eng.Args("sip,dip", "eth0", "", first, last)
+	res, err, pmsg := eng.Run(args[0], a)
+	switch {
+	case pmsg != "":
+		out.Panic = pmsg
+	case err != nil:
+		out.Err = err.Error()
+	default:
+		cn := rdr.Canonical(res, spec)
+		out.Rows, out.Totals, out.Hits = cn.Rows, cn.Totals, cn.Hits
+	}
+	b, _ := json.Marshal(out)
+	fmt.Println(string(b))
+	return 0
+}
+
+var (
+	consumerRe = regexp.MustCompile(`grabAndProcessWorkload`)
+)
+
+// witnessIn reports whether a goroutine dump shows the producer blocked in a channel send inside
+// CreateWorkerJobs and no worker goroutine.
+func witnessIn(dump string) bool {
+	// examine goroutine by goroutine so that the frames belong to the blocked goroutine
+	found := false
+	for _, g := range strings.Split(dump, "\n\n") {
+		if !strings.HasPrefix(strings.TrimSpace(g), "goroutine ") {
+			continue
+		}
+		if consumerRe.MatchString(g) {
+			return false
+		}
+		head, _, _ := strings.Cut(strings.TrimSpace(g), "\n")
+		if strings.Contains(head, "[chan send") && strings.Contains(g, "(*DBWorkManager).CreateWorkerJobs") {
+			found = true
+		}
+	}
+	return found
+}
+
+func runTermination(c *fw.Case, days int) {
+	// N one-block days, one flow each; a few distinct (sip,dip) groups so the result is small
+	db := &gen.RefDB{Ifaces: []gen.IfaceData{{Name: "eth0"}}}
+	base := gen.DayStart(gen.MinTS) + 86400*int64(10+c.Rng.Intn(1000))
+	for d := 0; d < days; d++ {
+		f := gen.Flow{SIP: gen.V4Addrs[d%len(gen.V4Addrs)], DIP: gen.V4Addrs[(d/7)%len(gen.V4Addrs)], Dport: 443, Proto: 6,
+			BR: uint64(100 + d), BS: uint64(3 * d), PR: uint64(1 + d%5), PS: uint64(d % 3)}
+		db.Ifaces[0].Blocks = append(db.Ifaces[0].Blocks, gen.Block{TS: base + int64(d)*86400 + 300*int64(1+d%280), Flows: []gen.Flow{f}})
+	}
+	dbPath := c.Tmp + "/db"
+	c.Note("writing %d one-block days", days)
+	for i, b := range db.Ifaces[0].Blocks {
+		if err := gen.WriteBlock(dbPath, "eth0", b, encoders.EncoderTypeLZ4, 0); err != nil {
+			c.Violatef("write_error", "writing day %d failed: %v", i, err)
+			return
+		}
+		if i%500 == 0 {
+			c.Note("writing day %d/%d", i, days)
+		}
+	}
+	first, last := db.Ifaces[0].Blocks[0].TS-1000, db.Ifaces[0].Blocks[days-1].TS+1000
+	want := ref.Query(db, termSpec(first, last))
+	oracle := rdr.Canon{Rows: rdr.RowStrings(want), Totals: want.Totals(), Hits: len(want)}
+
+	self, err := os.Executable()
+	if err != nil {
+		c.Inconclusive("os.Executable: %v", err)
+		return
+	}
+	cmd := exec.Command("taskset", "-c", "0", self, "-role", "c11-query", dbPath, strconv.FormatInt(first, 10), strconv.FormatInt(last, 10))
+	cmd.Env = append(os.Environ(), "GOTRACEBACK=all")
+	var stdout bytes.Buffer
+	errPath := c.Tmp + "/child.stderr"
+	ef, _ := os.Create(errPath)
+	cmd.Stdout, cmd.Stderr = &stdout, ef
+	if err := cmd.Start(); err != nil {
+		ef.Close()
+		c.Inconclusive("cannot start pinned child: %v", err)
+		return
+	}
+	c.Count("termination_children", 1)
+	if days > 2048 {
+		c.Count("termination_days_over_channel_capacity", 1)
+	}
+	done := make(chan error, 1)
+	go func() { done <- cmd.Wait() }()
+	// watchdog: the query normally needs well under a second per thousand days; allow 120 s. The
+	// structural witness is probed earlier (after 15, 40 and 80 s): because it describes a state that
+	// can never change, seeing it in three consecutive dumps decides the case without waiting longer.
+	const watchdog = 120
+	var werr error
+	finished := false
+	desc := fmt.Sprintf("%d one-block day directories, query sip,dip over the whole range, child pinned to one CPU (1 worker, channel capacity 64 workloads x 32 directories = 2048)", days)
+	readErr := func() string { b, _ := os.ReadFile(errPath); return string(b) }
+	nDump := 0
+	// softDump asks the child for a non-fatal goroutine dump and returns it ("" if none arrived).
+	softDump := func() string {
+		nDump++
+		cmd.Process.Signal(syscall.SIGUSR1)
+		s := fmt.Sprintf("=== VERIF GOROUTINE DUMP %d ===", nDump)
+		e := fmt.Sprintf("=== END DUMP %d ===", nDump)
+		for w := 0; w < 40; w++ {
+			time.Sleep(250 * time.Millisecond)
+			all := readErr()
+			if i := strings.Index(all, s); i >= 0 {
+				if j := strings.Index(all[i:], e); j >= 0 {
+					return all[i : i+j]
+				}
+			}
+		}
+		return ""
+	}
+	// hardDump sends SIGQUIT and returns the runtime's goroutine dump.
+	hardDump := func() string {
+		cmd.Process.Signal(syscall.SIGQUIT)
+		select {
+		case <-done:
+		case <-time.After(15 * time.Second):
+			cmd.Process.Kill()
+			<-done
+		}
+		all := readErr()
+		if i := strings.Index(all, "SIGQUIT: quit"); i >= 0 {
+			return all[i:]
+		}
+		return ""
+	}
+	for i := 0; i < watchdog && !finished; i++ {
+		select {
+		case werr = <-done:
+			finished = true
+		case <-time.After(time.Second):
+			if i%10 == 9 {
+				c.Note("pinned query over %d days running for %d s", days, i+1)
+			}
+		}
+		if finished || (i+1 != 15 && i+1 != 40 && i+1 != 80) {
+			continue
+		}
+		c.Note("probing for the deadlock witness after %d s", i+1)
+		if !witnessIn(softDump()) {
+			continue
+		}
+		time.Sleep(2 * time.Second)
+		if !witnessIn(softDump()) {
+			continue
+		}
+		time.Sleep(2 * time.Second)
+		select {
+		case werr = <-done:
+			finished = true
+			continue
+		default:
+		}
+		d3 := hardDump()
+		ef.Close()
+		if witnessIn(d3) {
+			c.Violatef("no_termination|producer_blocked_before_workers_start", "%s: no result after %d s; 3 consecutive goroutine dumps (2 s apart) show the producer blocked in chan send inside CreateWorkerJobs and no worker goroutine, a state that cannot change because workers are started only after CreateWorkerJobs returns:\n%s",
+				desc, i+5, extractGoroutine(d3, "CreateWorkerJobs"))
+		} else {
+			c.Inconclusive("%s: witness seen in two dumps but not in the final one; stderr tail: %s", desc, lastBytes(readErr(), 3000))
+		}
+		return
+	}
+	if !finished {
+		d := hardDump()
+		ef.Close()
+		c.Inconclusive("%s: watchdog (%d s) expired without the structural deadlock witness (witness in final dump: %v); stderr tail: %s", desc, watchdog, witnessIn(d), lastBytes(readErr(), 3000))
+		return
+	}
+	ef.Close()
+	var out childOut
+	if werr != nil || json.Unmarshal(bytes.TrimSpace(stdout.Bytes()), &out) != nil {
+		b, _ := os.ReadFile(errPath)
+		kind := "child_died"
+		if bytes.Contains(b, []byte("panic:")) || bytes.Contains(b, []byte("fatal error:")) {
+			kind = "child_crashed"
+		}
+		c.Violatef(kind, "%s: pinned child failed (%v): stdout %q stderr tail: %s", desc, werr, lastBytes(stdout.String(), 300), lastBytes(string(b), 3000))
+		return
+	}
+	switch {
+	case out.NumCPU != 1:
+		c.Inconclusive("taskset did not pin the child: runtime.NumCPU()=%d", out.NumCPU)
+	case out.Panic != "":
+		c.Violatef("panic|pinned_child", "%s: panic: %s", desc, firstLines(out.Panic, 14))
+	case out.Err != "":
+		c.Violatef("query_error|pinned_child", "%s: error: %s", desc, out.Err)
+	default:
+		got := rdr.Canon{Rows: out.Rows, Totals: out.Totals, Hits: out.Hits}
+		if d := rdr.DiffCanon(oracle, got); d != "" {
+			c.Violatef("pinned_child_vs_oracle", "%s: oracle vs result: %s", desc, d)
+		}
+		c.Count("termination_children_finished", 1)
+		c.Nontrivial(fmt.Sprintf("termination|%d", days))
+		c.Sample(map[string]any{"days": days, "pinned_cpus": out.NumCPU, "rows": len(out.Rows), "totals": out.Totals})
+	}
+}
+
+func extractGoroutine(dump, frame string) string {
+	for _, g := range strings.Split(dump, "\n\n") {
+		if strings.Contains(g, frame) {
+			return firstLines(strings.TrimSpace(g), 14)
+		}
+	}
+	return firstLines(dump, 20)
+}
+
+func lastBytes(s string, n int) string {
+	if len(s) > n {
+		return "…" + s[len(s)-n:]
+	}
+	return s
+}
+
+func firstLines(s string, n int) string {
+	l := strings.Split(s, "\n")
+	if len(l) > n {
+		l = l[:n]
+	}
+	return strings.Join(l, "\n")
+}
